@@ -35,8 +35,18 @@ for d in sorted(glob.glob('seeded/*/')):
     json.dump(meta, open(d + 'meta.json', 'w'), indent=1)
     rows.append((sid, meta['property'], ', '.join('%s:%s' % (x['check'], 'DETECTED ' + '/'.join(x['violation_keys'][:2]) if x['exit'] == 1 else 'missed (rc=%d)' % x['exit']) for x in det), meta.get('summary', '')[:140]))
     print(rows[-1][:3], flush=True)
-if not only:
-    with open('seeded/MATRIX.md', 'w') as f:
-        f.write('# Seeded changes vs checks (quick tier, seed 1)\n\n| seed | property | result | change |\n|---|---|---|---|\n')
-        for r in rows:
-            f.write('| %s | %s | %s | %s |\n' % r)
+# MATRIX.md is always rebuilt from the meta.json files of all seeds
+allrows = []
+for d in sorted(glob.glob('seeded/*/')):
+    sid = os.path.basename(d.rstrip('/'))
+    try:
+        meta = json.load(open(d + 'meta.json'))
+    except Exception:
+        continue
+    det = meta.get('detected_by') or []
+    res = ', '.join('%s:%s' % (x['check'], 'DETECTED ' + '/'.join(x['violation_keys'][:2]) if x['exit'] == 1 else 'missed (rc=%d)' % x['exit']) for x in det) or 'not run'
+    allrows.append((sid, meta['property'], res, meta.get('summary', '')[:140].replace('|', '/').replace('\n', ' ')))
+with open('seeded/MATRIX.md', 'w') as f:
+    f.write('# Seeded changes vs checks (quick tier, seed 1)\n\n| seed | property | result | change |\n|---|---|---|---|\n')
+    for r in allrows:
+        f.write('| %s | %s | %s | %s |\n' % r)
